@@ -39,6 +39,9 @@ def jobs(tier):
                 J.append(Job(b, "fork", P1, dict(p, helpers=3, lfht=1), env, workers=16))
                 J.append(Job(b, "fork", P1, dict(p, lfht=2), env, workers=8))                          # fresh AUTO_RESIZE table after fork
                 J.append(Job(b, "fork", P1, dict(p, pre_lfht=1), env, workers=16))                     # table + worker from before the fork
+                J.append(Job(b, "fork", P1, dict(p, pre_lfht=1, ncb=0), env, workers=16))              # ... call_rcu never used before the fork
+                if not q:
+                    J.append(Job(b, "fork", P1, dict(p, pre_lfht=1, ncb=0, lfht=2), env, workers=16))
                 if b == "fk_bp":
                     cap = {"init_reader_count": 2}
                     J.append(Job(b, "fork", P1 if q else P2, dict(p, readers=2, **cap), env, workers=8))
